@@ -8,7 +8,6 @@ package cache
 func Harness_C07_mark() {
 	hc := NewHTTPCache()
 	hc.status = StatusFetching
-	hc.chanList = make([]chan struct{}, 0, 5)
 	p := verifInt("hitForPass")
 	verifAssume(p < 1<<40)
 	before := ghostClock
